@@ -14,20 +14,20 @@ from .tlc import MachineryError
 REGISTRY = {
     "C01": ("model_checking", ["bloomfam", "expanding", "scale"]),
     "C02": ("model_checking", ["countmin", "scale"]),
-    "C03": ("model_checking", ["cuckoo"]),
+    "C03": ("model_checking", ["cuckoo", "scale"]),
     "C04": ("model_checking", ["qf", "scale"]),
-    "C05": ("model_checking", ["bloomfam", "countmin", "cuckoo", "expanding"]),
+    "C05": ("model_checking", ["bloomfam", "countmin", "cuckoo", "expanding", "scale"]),
     "C06": ("model_checking", ["layout"]),
     "C07": ("model_checking", ["sizing"]),
     "C08": ("model_checking", ["bloomfam", "cuckoo", "scale"]),
     "C09": ("model_checking", ["expanding", "scale"]),
     "C10": ("model_checking", ["expanding", "scale"]),
-    "C11": ("fault_enumeration", ["ondisk"]),
-    "C12": ("model_checking", ["bloomfam", "countmin"]),
+    "C11": ("fault_enumeration", ["ondisk", "scale"]),
+    "C12": ("model_checking", ["bloomfam", "countmin", "scale"]),
     "C13": ("model_checking", ["bloomfam", "countmin", "compat"]),
     "C14": ("model_checking", ["bloomfam", "countmin", "qf", "cuckoo", "expanding", "scale"]),
     "C16": ("model_checking", ["bloomfam", "countmin", "saturation"]),
-    "C15": ("model_checking", ["cuckoo"]),
+    "C15": ("model_checking", ["cuckoo", "scale"]),
     "C17": ("model_checking", ["countmin"]),
     "C18": ("model_checking", ["hashes"]),
     "C19": ("model_checking", ["bloomfam", "countmin", "qf", "cuckoo", "expanding"]),
